@@ -10,7 +10,10 @@ import (
 // documents in different folders which spell a relative reference identically
 // (`models.json#/definitions/Item`) but mean different documents; every combination of element kind
 // (parameter / response), hop count of the import (1 or 2) and where the twins live.
-const TwinsCount = 2 * 2 * 3
+const TwinsCount = 2*2*3 + 3
+
+// the last three twin worlds are "echo" chains: a hop found in another document is spelled exactly
+// like the hop that led there (sub/x.json#/… inside api/sub/x.json means api/sub/sub/x.json)
 
 var twinDirs = [][2]string{
 	{Prefix + "/api/sub", Prefix + "/lib"},
@@ -20,6 +23,9 @@ var twinDirs = [][2]string{
 
 // Twins builds the idx-th twin world.
 func Twins(idx int) *model.World {
+	if idx >= 2*2*3 {
+		return echo(idx - 2*2*3)
+	}
 	kind := idx % 2
 	hops := 1 + (idx/2)%2
 	dirs := twinDirs[(idx/4)%3]
@@ -83,5 +89,38 @@ func Twins(idx int) *model.World {
 	for u, d := range w.Docs {
 		w.Docs[u] = model.Norm(d)
 	}
+	return w
+}
+
+func echo(kind int) *model.World {
+	section := []string{"parameters", "responses", "paths"}[kind]
+	name := []string{"P", "R", "/p"}[kind]
+	ref := "sub/x.json#/" + section + "/" + model.Esc(name)
+	final := []interface{}{
+		map[string]interface{}{"name": "final", "in": "query", "type": "string"},
+		map[string]interface{}{"description": "final"},
+		map[string]interface{}{"get": map[string]interface{}{"operationId": "final", "responses": map[string]interface{}{"200": map[string]interface{}{"description": "final"}}}},
+	}[kind]
+	mk := func(title string, el interface{}) map[string]interface{} {
+		d := map[string]interface{}{"swagger": "2.0", "info": map[string]interface{}{"title": title, "version": "1"}}
+		if kind == 2 {
+			d["paths"] = map[string]interface{}{name: el}
+		} else {
+			d["paths"] = map[string]interface{}{}
+			d[section] = map[string]interface{}{name: el}
+		}
+		return d
+	}
+	w := &model.World{Docs: map[string]interface{}{}, Root: RootURL}
+	rootName := []string{"P0", "R0", "/entry"}[kind]
+	root := mk("root", nil)
+	if kind == 2 {
+		root["paths"] = map[string]interface{}{rootName: map[string]interface{}{"$ref": ref}}
+	} else {
+		root[section] = map[string]interface{}{rootName: map[string]interface{}{"$ref": ref}}
+	}
+	w.Docs[RootURL] = model.Norm(root)
+	w.Docs["file://"+Prefix+"/api/sub/x.json"] = model.Norm(mk("hop", map[string]interface{}{"$ref": ref}))
+	w.Docs["file://"+Prefix+"/api/sub/sub/x.json"] = model.Norm(mk("final", final))
 	return w
 }
